@@ -313,8 +313,8 @@ func runC17(c *Ctx) {
 	peer := ch.Pick(3, "peer") // 2 = reference server, which adds a cookie to the HelloRetryRequest
 	var cands []uint16
 	for _, g := range of.Groups {
-		if (g == 23 || g == 24 || g == 25 || g == 29) && !has16(of.Shares, g) {
-			cands = append(cands, g)
+		if (g == 23 || g == 24 || g == 25 || g == 29 || g == 4588) && !has16(of.Shares, g) {
+			cands = append(cands, g) // (4588: a hybrid group listed without a share - some randomized and hand-written specs)
 		}
 	}
 	if len(cands) == 0 {
@@ -421,6 +421,18 @@ func runC17(c *Ctx) {
 		// "fresh": the new share is not key material that already went out in the first hello
 		// (e.g. the X25519 half of a hybrid share)
 		diff("key-share-not-fresh", "the %d-byte share of group %d in CH2 already occurs in CH1", len(b.KeyShares[0].Data), g)
+	} else if g == 0x11ec || g == 0x6399 {
+		// a hybrid share requested by the HelloRetryRequest: its X25519 half may not be a key that the
+		// first hello already sent either (on its own or inside another share)
+		d := b.KeyShares[0].Data
+		half := d[len(d)-32:]
+		if g == 0x6399 {
+			half = d[:32]
+		}
+		if bytes.Contains(a.Raw, half) {
+			diff("key-share-not-fresh", "the X25519 half of the group %d share in CH2 already occurs in CH1", g)
+		}
+		c.Probe("hrr-to-hybrid-group")
 	}
 	if cookie == nil && b.Cookie != nil {
 		diff("cookie-invented", "CH2 carries a cookie although the server sent none")
@@ -496,6 +508,26 @@ func runC18(c *Ctx) {
 	}
 	of := OfferOf(dry, 0)
 	c.R.Class = fmt.Sprintf("%s/%s rand=%v/%d", f.Kind, f.IDI.Name, rs != nil, chunkMode)
+	// a fifth of the worlds: the hellos of the world are built over a session cache that holds a
+	// TLS 1.2 ticket of this server (the same ticket is offered by every hello that follows: the
+	// server is never reached again) - randoms, session ids and shares must still be fresh
+	var ticketCache tls.ClientSessionCache
+	if has16(of.Versions, 0x0303) && ch.Bool(20, "cached-tls12-ticket") {
+		ticketCache = tls.NewLRUClientSessionCache(4)
+		inner := negCfg
+		negCfg = func() *tls.Config {
+			cfg := inner()
+			cfg.ClientSessionCache = ticketCache
+			return cfg
+		}
+		p0 := &NegPlan{Peer: ch.Pick(2, "ticket-peer"), Version: tls.VersionTLS12}
+		u0, s0 := ServerConfigs(p0)
+		o0 := RunConn(c, w, &ConnSpec{Name: "ticket", ID: f.IDI.ID, Spec: f.Spec(), CCfg: negCfg(), Peer: p0.Peer, SCfg: u0, StdCfg: s0, Payload: [][]byte{[]byte("ping")}})
+		if o0.CDone {
+			c.Probe("tls12-ticket-cached")
+		}
+		c.R.Class += " cached-ticket"
+	}
 	var hellos []*wire.ClientHello
 	var connOf []int // which connection each hello belongs to (the two hellos around a HelloRetryRequest share one)
 	nextConn := 0
